@@ -105,6 +105,7 @@ class DefaultEvaluatorStep(PlanStep):
                 source=self.id,
             )
         )
+        results: tuple[Any, ...] = ()
         try:
             results = ensemble_evaluator.calculate(
                 variables, compute_functions=True, compute_gradients=False
@@ -112,10 +113,11 @@ class DefaultEvaluatorStep(PlanStep):
         except OptimizationAborted as exc:
             exit_code = exc.exit_code
 
-        assert results
-        assert isinstance(results[0], FunctionResults)
-        if results[0].functions is None:
-            exit_code = OptimizerExitCode.TOO_FEW_REALIZATIONS
+        # There are no results if the evaluation was aborted:
+        if results:
+            assert isinstance(results[0], FunctionResults)
+            if results[0].functions is None:
+                exit_code = OptimizerExitCode.TOO_FEW_REALIZATIONS
 
         if metadata is not None:
             for item in results:
